@@ -32,6 +32,8 @@ is a C++ notion; the harness compares `this` with `&fsm.access<S>()` in every ca
 Destruction of an automatically activated instance is `finalExit` (root_1.inl `~RV_`).
 -/
 import Hfsm.Proofs.Nesting
+import Hfsm.Proofs.LifecycleRun
+import Hfsm.Proofs.DemoMach
 
 namespace Hfsm.Props.C03
 open Hfsm
@@ -313,6 +315,191 @@ Theorems that constitute C03:
   fwdExitGuard_only_entered update_passes_only_entered react_passes_only_entered query_call_only_entered
   initially_nested enter_nested exit_nested reenter_nested commit_nested under_entered_ancestor
   resolution_free entry_guards_free free_keeps_record activation_record finalExit_closed
+-/
+
+/-! ### the whole life of an instance: induction over the sequence of API calls
+
+The theorems above are per traversal, under the registry facts (`Act`, `Res`, `COK`, `IdsFrom`) that C01
+establishes and a decision stream that is long enough.  Here they are chained over EVERY sequence of
+API calls from construction on — `enter`, `exit`, `update`, `react`, `query`, `reset`, queued and immediate
+transitions of every kind (cancelled and substituted ones included: the guards and the substitution
+loop are inside `update` / `react` / the immediate calls), task status calls, plan edits, serialization
+`load`s, `replayTransitions`, `replayEnter` — for every machine structure, configuration, decisions of the
+user callbacks and generator outputs (Proofs/LifecycleRun.lean):
+
+  `Mach.entered m`  the handler objects of the active states (`hasKey m.root.activePre`) when the
+                    instance is activated (`m.root.machineActive` = `RegistryT::isActive()`), nothing otherwise
+  `Mach.Rec base m` `LifeOK m.entered m.w.cbSeq ∧ NestOK base m.entered m.w.cbSeq` — the WHOLE callback
+                    sequence since construction is balanced and nested, and exactly `m.entered` is entered now.
+
+Two formalisms of "sequence of calls":
+  * `Mach.run` (Proofs/MachOps.lean, the one of C01): every call brings the decisions / generator outputs
+    it will consume; a call that is illegal in the current activation state is a contract violation (`err`);
+  * `Api.run` from `Api.boot` (Proofs/Api.lean): one stream for the whole life, construction activates an
+    automatic instance; calls are performed unconditionally, so legality is the hypothesis `Api.runLegal`.
+
+Hypothesis `err = none` on the FINAL state: `err` is sticky (`Mach.run_errLe`), so no call of the run met a
+contract violation; with `World.Fed` (`err = none` ⇒ every callback found a decision) this replaces the
+`… ≤ w.ds.length` hypotheses above.
+
+FULL STATEMENT (false of the model, kept for the record):
+    theorem lifecycle_whole_run (shape cfg) (steps : List (ApiStep U))
+        (he : ((Mach.create shape cfg).run steps).w.err = none) :
+        LifeOK ((Mach.create shape cfg).run steps).entered ((Mach.create shape cfg).run steps).w.cbSeq
+It fails for hierarchies WITHOUT ANY composite region (an orthogonal root over leaves): `isActive()` reads
+`compoActive[0]`, which such a machine does not have; the model answers `false` forever, so a second
+`enter()` is not a contract violation and delivers `enter` to entered states (`whole_run_false_without_compo`).
+The generators never emit such a hierarchy (gen/shapes.py retries on `compo_count() == 0`).  The `_partial`
+theorems carry the explicit, decidable hypothesis `HasCompo shape`.
+For `Api.run` the statement is also false without `Api.runLegal` (`whole_run_api_false_when_illegal`). -/
+
+section wholeRun
+variable [UtilArith U]
+
+/-- the hierarchy has at least one composite region (the root or any other) -/
+abbrev HasCompo (shape : Shape) : Prop := (shape.toNode 0 0).anyCompo = true
+
+omit [UtilArith U] in
+/-- what is entered between calls: the objects of the active states of an activated instance -/
+theorem entered_spec (m : Mach U) (x : Key) :
+    m.entered x = (m.root.machineActive && hasKey m.root.activePre x) := rfl
+
+/-- … and each of them belongs to a state that `isActive(stateId)` reports active -/
+theorem entered_isActive (shape : Shape) (cfg : Config) (steps : List (ApiStep U))
+    (he : ((Mach.create shape cfg : Mach U).run steps).w.err = none) (x : Key)
+    (hx : ((Mach.create shape cfg : Mach U).run steps).entered x = true) :
+    ((Mach.create shape cfg : Mach U).run steps).root.isActive x.1 = true :=
+  Mach.entered_isActive (Node.idsFrom_toNode shape 0 0) (Mach.run_inv steps _ (Mach.create_inv shape cfg) he) x hx
+
+/-- **C03, balance, end to end.**  After any sequence of API calls that met no contract violation, the
+whole callback sequence since construction is a balanced lifecycle history: no object received `enter`
+while entered, or `exit` / `reenter` / an update, react, query or exit-guard callback while not entered,
+and exactly the objects of the currently active states are entered. -/
+theorem lifecycle_whole_run_partial (shape : Shape) (cfg : Config) (steps : List (ApiStep U)) (hc : HasCompo shape)
+    (he : ((Mach.create shape cfg : Mach U).run steps).w.err = none) :
+    LifeOK ((Mach.create shape cfg : Mach U).run steps).entered ((Mach.create shape cfg : Mach U).run steps).w.cbSeq :=
+  (Mach.run_rec hc (Node.idsFrom_toNode shape 0 0) steps _ (Mach.create_inv shape cfg) (Mach.create_rec shape cfg) he).life
+
+/-- **C03, nesting, end to end.**  … and for every (object of a state, object of a strict descendant)
+every `enter` of the descendant found the ancestor entered, every `exit` of the ancestor found the
+descendant closed. -/
+theorem nesting_whole_run_partial (shape : Shape) (cfg : Config) (steps : List (ApiStep U)) (hc : HasCompo shape)
+    (he : ((Mach.create shape cfg : Mach U).run steps).w.err = none) :
+    NestOK (shape.toNode 0 0) ((Mach.create shape cfg : Mach U).run steps).entered
+      ((Mach.create shape cfg : Mach U).run steps).w.cbSeq :=
+  (Mach.run_rec hc (Node.idsFrom_toNode shape 0 0) steps _ (Mach.create_inv shape cfg) (Mach.create_rec shape cfg) he).nest
+
+/-- whenever the instance is not activated (before the first `enter`, after `exit`, after loading an
+inactive image, after a `replayEnter` that returned `false`) every object is closed: each `enter` so far
+has been matched by exactly one `exit` -/
+theorem closed_when_inactive_partial (shape : Shape) (cfg : Config) (steps : List (ApiStep U)) (hc : HasCompo shape)
+    (he : ((Mach.create shape cfg : Mach U).run steps).w.err = none)
+    (hm : ((Mach.create shape cfg : Mach U).run steps).root.machineActive = false) :
+    LifeOK (fun _ => false) ((Mach.create shape cfg : Mach U).run steps).w.cbSeq :=
+  (Mach.run_rec hc (Node.idsFrom_toNode shape 0 0) steps _ (Mach.create_inv shape cfg) (Mach.create_rec shape cfg) he).closed hm
+
+/-- **C03, when `exit()` returns** (destruction of an automatically activated instance is the same
+`finalExit`): every entered object has been exited, exactly once. -/
+theorem closed_after_exit_partial (shape : Shape) (cfg : Config) (steps : List (ApiStep U)) (ds : List (Decision U))
+    (rng : List U) (hc : HasCompo shape)
+    (he : ((Mach.create shape cfg : Mach U).run (steps ++ [⟨ds, rng, .exit⟩])).w.err = none) :
+    LifeOK (fun _ => false) ((Mach.create shape cfg : Mach U).run (steps ++ [⟨ds, rng, .exit⟩])).w.cbSeq :=
+  Mach.run_exit_closed shape cfg steps ds rng hc he
+
+/-! #### `Api.run`: one decision stream from construction on -/
+
+theorem lifecycle_whole_run_api_partial (shape : Shape) (cfg : Config) (ds : List (Decision U)) (rng : List U)
+    (ops : List Api.Op) (hc : HasCompo shape) (hl : Api.runLegal (Api.boot shape cfg ds rng) ops = true)
+    (he : (Api.run (Api.boot shape cfg ds rng) ops).w.err = none) :
+    LifeOK (Api.run (Api.boot shape cfg ds rng) ops).entered (Api.run (Api.boot shape cfg ds rng) ops).w.cbSeq :=
+  (Api.boot_run_rec shape cfg ds rng ops hc hl he).2.life
+
+theorem nesting_whole_run_api_partial (shape : Shape) (cfg : Config) (ds : List (Decision U)) (rng : List U)
+    (ops : List Api.Op) (hc : HasCompo shape) (hl : Api.runLegal (Api.boot shape cfg ds rng) ops = true)
+    (he : (Api.run (Api.boot shape cfg ds rng) ops).w.err = none) :
+    NestOK (shape.toNode 0 0) (Api.run (Api.boot shape cfg ds rng) ops).entered
+      (Api.run (Api.boot shape cfg ds rng) ops).w.cbSeq :=
+  (Api.boot_run_rec shape cfg ds rng ops hc hl he).2.nest
+
+theorem closed_after_exit_api_partial (shape : Shape) (cfg : Config) (ds : List (Decision U)) (rng : List U)
+    (ops : List Api.Op) (hc : HasCompo shape)
+    (hl : Api.runLegal (Api.boot shape cfg ds rng) (ops ++ [.exit]) = true)
+    (he : (Api.run (Api.boot shape cfg ds rng) (ops ++ [.exit])).w.err = none) :
+    LifeOK (fun _ => false) (Api.run (Api.boot shape cfg ds rng) (ops ++ [.exit])).w.cbSeq :=
+  Api.boot_run_exit_closed shape cfg ds rng ops hc hl he
+
+end wholeRun
+
+/-! #### the hypotheses are met, and they are needed -/
+
+/-- idle callbacks -/
+def exQuiet (n : Nat) : List (Decision Demo.DU) := List.replicate n []
+
+/-- activation, a transition to state 2 (exit 1, enter 2 and its injected base), an idle update, a
+reset (exit everything, enter the initial configuration) … -/
+def exLife : List (ApiStep Demo.DU) :=
+  [⟨exQuiet 10, [], .enter⟩, ⟨exQuiet 20, [], .immediate .change 2 none⟩, ⟨exQuiet 20, [], .update⟩,
+   ⟨exQuiet 20, [], .reset⟩]
+
+/-- … then deactivation: no contract violation, 26 callbacks -/
+theorem exLife_ok : HasCompo Demo.shape ∧
+    ((Mach.create Demo.shape Demo.cfg : Mach Demo.DU).run (exLife ++ [⟨exQuiet 10, [], .exit⟩])).w.err = none ∧
+    ((Mach.create Demo.shape Demo.cfg : Mach Demo.DU).run (exLife ++ [⟨exQuiet 10, [], .exit⟩])).w.cbSeq.length = 26 := by
+  decide +kernel
+
+example : LifeOK ((Mach.create Demo.shape Demo.cfg : Mach Demo.DU).run (exLife ++ [⟨exQuiet 10, [], .exit⟩])).entered
+    ((Mach.create Demo.shape Demo.cfg : Mach Demo.DU).run (exLife ++ [⟨exQuiet 10, [], .exit⟩])).w.cbSeq :=
+  lifecycle_whole_run_partial Demo.shape Demo.cfg _ exLife_ok.1 exLife_ok.2.1
+
+example : LifeOK (fun _ => false)
+    ((Mach.create Demo.shape Demo.cfg : Mach Demo.DU).run (exLife ++ [⟨exQuiet 10, [], .exit⟩])).w.cbSeq :=
+  closed_after_exit_partial Demo.shape Demo.cfg exLife (exQuiet 10) [] exLife_ok.1 exLife_ok.2.1
+
+/-- the demonstration program of Proofs/DemoMach.lean (a transition requested by a callback, one through
+the API) is legal and meets no contract violation -/
+theorem exDemo_ok : HasCompo Demo.shape ∧ Api.runLegal Demo.mach Demo.prog = true ∧
+    (Api.run Demo.mach Demo.prog).w.err = none := by decide +kernel
+
+example : LifeOK (Api.run Demo.mach Demo.prog).entered (Api.run Demo.mach Demo.prog).w.cbSeq := by
+  have h := exDemo_ok
+  unfold Demo.mach at h ⊢
+  exact lifecycle_whole_run_api_partial Demo.shape Demo.cfg Demo.ds [] Demo.prog h.1 h.2.1 h.2.2
+
+/-- an orthogonal root over two leaves: no composite region anywhere -/
+def exNoCompo : Shape := .ortho true 0 (.cons (.leaf 0) (.cons (.leaf 0) .nil))
+
+/-- **The full statement is false without `HasCompo`.**  Manual instance of `exNoCompo`, history
+`enter(); enter();`: `isActive()` is still `false` after the first `enter()`, the second one is not a
+contract violation, and the root's object (0, 0) receives `enter` while entered. -/
+theorem whole_run_false_without_compo :
+    let m := (Mach.create exNoCompo { manual := true } : Mach Demo.DU).run
+      [⟨exQuiet 10, [], .enter⟩, ⟨exQuiet 10, [], .enter⟩]
+    m.w.err = none ∧ ¬ LifeOK m.entered m.w.cbSeq := by
+  have h : ((Mach.create exNoCompo { manual := true } : Mach Demo.DU).run
+      [⟨exQuiet 10, [], .enter⟩, ⟨exQuiet 10, [], .enter⟩]).w.err = none ∧
+      track (0, 0) (some false) ((Mach.create exNoCompo { manual := true } : Mach Demo.DU).run
+        [⟨exQuiet 10, [], .enter⟩, ⟨exQuiet 10, [], .enter⟩]).w.cbSeq = none := by decide +kernel
+  exact ⟨h.1, fun hOK => by have := hOK (0, 0); rw [h.2] at this; cases this⟩
+
+/-- **`Api.run` needs `Api.runLegal`.**  Automatic instance of the demonstration machine, history
+`enter();` on the already activated instance: no contract violation in `Api.step`, and `enter` is
+delivered to the entered root object. -/
+theorem whole_run_api_false_when_illegal :
+    let m := Api.run (Api.boot Demo.shape Demo.cfg (exQuiet 20) [] : Mach Demo.DU) [.enter]
+    HasCompo Demo.shape ∧ m.w.err = none ∧ ¬ LifeOK m.entered m.w.cbSeq := by
+  have h : HasCompo Demo.shape ∧
+      (Api.run (Api.boot Demo.shape Demo.cfg (exQuiet 20) [] : Mach Demo.DU) [.enter]).w.err = none ∧
+      track (0, 0) (some false)
+        (Api.run (Api.boot Demo.shape Demo.cfg (exQuiet 20) [] : Mach Demo.DU) [.enter]).w.cbSeq = none := by
+    decide +kernel
+  exact ⟨h.1, h.2.1, fun hOK => by have := hOK (0, 0); rw [h.2.2] at this; cases this⟩
+
+/-
+Theorems that constitute C03, end to end (Proofs/LifecycleRun.lean):
+  entered_spec entered_isActive
+  lifecycle_whole_run_partial nesting_whole_run_partial closed_when_inactive_partial closed_after_exit_partial
+  lifecycle_whole_run_api_partial nesting_whole_run_api_partial closed_after_exit_api_partial
+  exLife_ok exDemo_ok (non-vacuity)   whole_run_false_without_compo whole_run_api_false_when_illegal (necessity)
 -/
 
 end Hfsm.Props.C03
